@@ -1,12 +1,26 @@
 #!/bin/sh
-# tools/seeded.sh <dir with patch.diff> <prop> : apply a seeded change to /repo, run the quick check, undo.
+# tools/seeded.sh <dir with patch.diff> <prop> : run the quick check of <prop> against /repo's HEAD with a seeded change.
+# By default the change is applied to a scratch worktree of /repo (outside /repo and /verif, removed afterwards) and the
+# check is pointed at it with VERIF_REPO, so that neither /repo nor anything else reading it is disturbed.
+# INPLACE=1 applies it to /repo itself and undoes it straight afterwards.
 # FAST=1 skips the Lean phase (only for changes that cannot touch an extracted fact).
 d="$(cd "$1" && pwd)"; prop="$2"
 extra=""; [ -n "$FAST" ] && extra="--skip-lean"
-cd /repo || exit 2
-git apply --check "$d/patch.diff" || { echo "patch does not apply"; exit 2; }
-git apply "$d/patch.diff"
-(cd /verif && ./check "$prop" --tier quick $extra > "out/seeded-$prop-$(basename $d).log" 2>&1; echo "exit=$?" >> "out/seeded-$prop-$(basename $d).log")
-git -C /repo checkout -- .
-git -C /repo status --short | grep -v '^??' 
-tail -4 "/verif/out/seeded-$prop-$(basename $d).log"
+log="/verif/out/seeded-$prop-$(basename $d).log"
+mkdir -p /verif/out
+if [ -n "$INPLACE" ]; then
+  cd /repo || exit 2
+  git apply --check "$d/patch.diff" || { echo "patch does not apply"; exit 2; }
+  git apply "$d/patch.diff"
+  (cd /verif && ./check "$prop" --tier quick $extra > "$log" 2>&1; echo "exit=$?" >> "$log")
+  git -C /repo checkout -- .
+  git -C /repo status --short | grep -v '^??'
+else
+  wt="/tmp/seedwt-$$"
+  git -C /repo worktree remove --force "$wt" >/dev/null 2>&1
+  git -C /repo worktree add -q --detach "$wt" HEAD || exit 2
+  if ! git -C "$wt" apply "$d/patch.diff"; then echo "patch does not apply"; git -C /repo worktree remove --force "$wt"; exit 2; fi
+  (cd /verif && VERIF_REPO="$wt" ./check "$prop" --tier quick $extra > "$log" 2>&1; echo "exit=$?" >> "$log")
+  git -C /repo worktree remove --force "$wt"; rm -rf "$wt"
+fi
+tail -4 "$log"
